@@ -34,8 +34,10 @@ FILES = [
     "crates/compiler/src/env.rs",
 ]
 
-HASHTY = r"(?:(?:Vec|Option)<\s*)*(?:std::collections::)?(?:Im)?Hash(?:Map|Set)\b"
-ITER_METHODS = r"iter|iter_mut|keys|values|values_mut|into_iter|into_keys|into_values|drain|difference|union|intersection|symmetric_difference"
+HASHTY = r"(?:(?:Vec|Option|Rc|Arc|Box|RefCell|Cell|Mutex|RwLock)<\s*)*(?:(?:std::)?collections::|hash_map::|hash_set::|im::)?(?:Im|Fx|Ahash|AHash)?Hash(?:Map|Set)\b"
+# `HashSet::<String>::new()`
+HASHTY_TURBO = HASHTY + r"\s*::\s*<[^;=]*?>\s*"
+ITER_METHODS = r"iter|iter_mut|keys|values|values_mut|into_iter|into_keys|into_values|drain|difference|union|intersection|symmetric_difference|retain|extract_if|par_iter"
 
 # (file basename, fn, normalised line) -> (class, why)
 N, O = "not-observable", "observable"
@@ -99,6 +101,12 @@ TABLE = {
     # ---- go/dce.rs
     ("dce.rs", "dce_block_with_live", "for u in &used_rhs {"): (N, "inserts into the liveness set"),
     ("dce.rs", "dce_block_with_live", "live.extend(cases_live_in);"): (N, "set union"),
+    # live-in sets returned in a tuple by the recursive calls (`let (blk, body_live_in) = dce_block_with_live(…)`)
+    ("dce.rs", "dce_block_with_live", "live.extend(body_live_in);"): (N, "set union into the liveness HashSet"),
+    ("dce.rs", "dce_block_with_live", "live.extend(then_live_in);"): (N, "set union into the liveness HashSet"),
+    ("dce.rs", "dce_block_with_live", "live.extend(else_live_in);"): (N, "set union into the liveness HashSet"),
+    ("dce.rs", "dce_block_with_live", "live.extend(default_live_in);"): (N, "set union into the liveness HashSet"),
+    ("dce.rs", "dce_block_with_live", "cases_live_in.extend(live_in);"): (N, "set union into a HashSet"),
     ("dce.rs", "add_uses_expr", "for u in vars_used_in_expr(e) {"): (N, "inserts into the liveness set"),
     ("dce.rs", "prune_dead_functions", "= fn_map.keys().cloned().collect();"): (N, "set of names, membership only"),
     ("dce.rs", "prune_dead_functions", "for callee in called_functions_in_fn(f, &fn_names) {"):
@@ -124,7 +132,29 @@ def fn_regions(src):
     return out
 
 
-def hash_names(text, fns_ret):
+def split_top(t):
+    """split a type list at its top-level commas"""
+    out, depth, cur = [], 0, ""
+    for ch in t:
+        if ch in "<([":
+            depth += 1
+        elif ch in ">)]":
+            depth -= 1
+        if ch == "," and depth == 0:
+            out.append(cur)
+            cur = ""
+        else:
+            cur += ch
+    if cur.strip():
+        out.append(cur)
+    return out
+
+
+# functions (of the file being scanned) that return a tuple: name -> indices of the hash-typed components
+FNS_RET_TUPLE = {}
+
+
+def hash_names(text, fns_ret, extra_fields=()):
     names = set()
     for m in re.finditer(r"\b(?:let\s+(?:mut\s+)?)?([a-z_][a-z0-9_]*)\s*:\s*&?\s*(?:'[a-z]+\s+)?(?:mut\s+)?" + HASHTY, text):
         names.add(m.group(1))
@@ -132,9 +162,40 @@ def hash_names(text, fns_ret):
         names.add(m.group(1))
     for m in re.finditer(r"\blet\s+(?:mut\s+)?([a-z_][a-z0-9_]*)[^;=]*=\s*[^;]*?collect::<\s*" + HASHTY, text):
         names.add(m.group(1))
+    for m in re.finditer(r"\blet\s+(?:mut\s+)?([a-z_][a-z0-9_]*)\s*=\s*" + HASHTY_TURBO + r"::", text):
+        names.add(m.group(1))
     for f in fns_ret:
         for m in re.finditer(r"\blet\s+(?:mut\s+)?([a-z_][a-z0-9_]*)[^;=]*=\s*[^;]*?\b" + f + r"\(", text):
             names.add(m.group(1))
+    # `let (a, b, c) = f(…);` where f returns a tuple: the components whose type is a hash collection
+    for f, idxs in FNS_RET_TUPLE.items():
+        for m in re.finditer(r"\blet\s+\(([^()=;]*)\)\s*(?::[^=;]*)?=\s*[^;]*?\b" + re.escape(f) + r"\(", text):
+            parts = [x.strip() for x in m.group(1).split(",")]
+            for i in idxs:
+                if i < len(parts):
+                    nm = re.sub(r"^(?:mut|ref)\s+", "", parts[i])
+                    if re.fullmatch(r"[a-z_][a-z0-9_]*", nm) and nm != "_":
+                        names.add(nm)
+    # `let (a, b): (HashSet<X>, Vec<Y>) = …;`
+    for m in re.finditer(r"\blet\s+\(([^()=;]*)\)\s*:\s*\(([^=;]*)\)\s*=", text):
+        parts = [x.strip() for x in m.group(1).split(",")]
+        for i, t in enumerate(split_top(m.group(2))):
+            if i < len(parts) and re.match(r"\s*&?\s*(?:mut\s+)?" + HASHTY, t):
+                nm = re.sub(r"^(?:mut|ref)\s+", "", parts[i])
+                if re.fullmatch(r"[a-z_][a-z0-9_]*", nm):
+                    names.add(nm)
+    # aliases: `let t = &s;` / `let t = s.clone();` / `let t = std::mem::take(&mut self.s);` of a hash-typed name or field
+    known = set(names) | set(extra_fields)
+    for _ in range(3):
+        alt = "|".join(sorted(re.escape(n) for n in known)) or "$^"
+        found = set()
+        for m in re.finditer(r"\blet\s+(?:mut\s+)?([a-z_][a-z0-9_]*)\s*=\s*(?:std::mem::take\s*\(\s*)?&?\s*(?:mut\s+)?"
+                             r"(?:[a-z_][a-z0-9_]*\s*\.\s*)*(?:" + alt + r")\s*(?:\.\s*(?:clone|to_owned|unwrap|unwrap_or_default|take)\s*\(\s*\)\s*)*\)?\s*;", text):
+            found.add(m.group(1))
+        if found <= known:
+            break
+        names |= found
+        known |= found
     return names
 
 
@@ -165,10 +226,21 @@ def scan_file(repo, rel):
     fields = own_fields | GLOBAL_FIELDS
     fns_ret = set(m.group(1) for m in re.finditer(
         r"\bfn\s+([a-z_][a-z0-9_]*)\s*(?:<[^>]*>)?\s*\([^)]*\)\s*->\s*(?:\(\s*[^)]*?)?" + HASHTY, text))
+    FNS_RET_TUPLE.clear()
+    for m in re.finditer(r"\bfn\s+([a-z_][a-z0-9_]*)\s*(?:<[^>]*>)?\s*\([^)]*\)\s*->\s*\(", text):
+        depth, j = 1, m.end()
+        while j < len(text) and depth:
+            depth += text[j] in "(" 
+            depth -= text[j] in ")"
+            j += 1
+        idxs = [i for i, t in enumerate(split_top(text[m.end():j - 1])) if re.match(r"\s*&?\s*(?:mut\s+)?" + HASHTY, t)]
+        if idxs:
+            FNS_RET_TUPLE[m.group(1)] = idxs
+    fns_ret -= set(FNS_RET_TUPLE)
     sites = []
     for fn, lo, hi in fn_regions(src):
         region = "\n".join(strip_line_comment(l) for l in src[lo:hi + 1])
-        local = hash_names(region, fns_ret)
+        local = hash_names(region, fns_ret, fields)
         allnames = local | fields
         alt = "|".join(sorted(re.escape(n) for n in allnames)) or "$^"
         recv = r"(?:[a-z_][a-z0-9_]*(?:\(\))?\s*\.\s*)*(?:" + alt + r")"
@@ -177,7 +249,12 @@ def scan_file(repo, rel):
             ("method", re.compile(r"\b(" + recv + r")" + PASS_THROUGH + r"\s*\.\s*(" + ITER_METHODS + r")\s*\(")),
             ("for", re.compile(r"\bfor\s+[^;{]*?\bin\s+&?(?:mut\s+)?(" + recv + r")\s*\{")),
             ("for-call", re.compile(r"\bfor\s+[^;{]*?\bin\s+&?((?:" + falt + r"))\s*\(")),
-            ("extend", re.compile(r"\.\s*extend\s*\(\s*&?(" + recv + r")\s*\)")),
+            ("extend", re.compile(r"\.\s*(?:extend|extend_from_slice|append|chain|zip)\s*\(\s*&?(?:mut\s+)?(" + recv + r")" + PASS_THROUGH + r"\s*\)")),
+            ("extend-call", re.compile(r"\.\s*(?:extend|chain|zip)\s*\(\s*&?((?:" + falt + r"))\s*\(")),
+            ("from-iter-call", re.compile(r"\b(?:from_iter)\s*\(\s*&?((?:" + falt + r"))\s*\(")),
+            ("method-call", re.compile(r"\b((?:" + falt + r"))\s*\((?:[^()]|\([^()]*\))*\)" + PASS_THROUGH + r"\s*\.\s*(" + ITER_METHODS + r")\s*\(")),
+            ("from-iter", re.compile(r"\b(?:from_iter|from)\s*\(\s*&?(" + recv + r")" + PASS_THROUGH + r"\s*\)")),
+            ("for", re.compile(r"\bfor\s+[^;{]*?\bin\s+&?(?:mut\s+)?(" + recv + r")" + PASS_THROUGH + r"\s*\{")),
         ]
         for i in range(lo, hi + 1):
             line = strip_line_comment(src[i])
@@ -191,14 +268,22 @@ def scan_file(repo, rel):
                 for m in p.finditer(joined):
                     r = m.group(1)
                     last = re.split(r"\s*\.\s*", r)[-1]
-                    if kind != "for-call" and last not in allnames:
+                    is_call = kind.endswith("-call")
+                    if not is_call and last not in allnames:
                         continue
                     # a field name known only from another file counts only when it is written as a field (`x.deps`)
-                    if kind != "for-call" and last not in (local | own_fields) and "." not in r:
+                    if not is_call and last not in (local | own_fields) and "." not in r:
                         continue
                     norm = " ".join(joined.split())
-                    sites.append({"file": rel, "line": i + 1, "fn": fn, "kind": kind, "receiver": r,
-                                  "text": norm[:160], "key": [base, fn, norm]})
+                    site = {"file": rel, "line": i + 1, "fn": fn, "kind": kind, "receiver": r,
+                            "text": norm[:160], "key": [base, fn, norm]}
+                    if kind in ("extend", "extend-call"):
+                        # `t.extend(<hash collection>)` where `t` is itself a hash collection of this fn / this file: a set union,
+                        # whatever the order of the argument
+                        tm = re.search(r"((?:[a-z_][a-z0-9_]*\s*\.\s*)*[a-z_][a-z0-9_]*)\s*\.\s*extend\s*\(\s*&?(?:mut\s+)?" + re.escape(r), joined)
+                        if tm and re.split(r"\s*\.\s*", tm.group(1))[-1] in (local | own_fields):
+                            site["auto"] = "the receiver `" + tm.group(1) + "` of `extend` is itself a HashMap/HashSet: set union"
+                    sites.append(site)
     seen, out = set(), []
     for s in sites:
         k = (s["line"], s["receiver"])
@@ -211,6 +296,8 @@ def scan_file(repo, rel):
 
 def classify(site):
     base, fn, norm = site["key"]
+    if site.get("auto"):
+        return "not-observable", "auto: " + site.pop("auto")
     for (b, f, t), (cls, why) in TABLE.items():
         if b == base and f in (fn, "") and t in norm:
             return cls, why
@@ -234,7 +321,110 @@ def all_compiler_sources(repo):
     return files
 
 
+# ---- self-test of the scanner: every way of INTRODUCING a hash-typed binding × every way of ITERATING it, written into a
+# synthetic source file and scanned with the same code as the compiler sources.  A missed combination is a hole in
+# the scan (reported by the check as a broken tie); a control with an ordered collection must yield no site.
+SELFTEST_INTROS = [
+    # (label, lines before the fn, parameter list, lines at the top of the body, receiver expression)
+    ("let-annotated-ref-elems", "", "", "let mut s: HashSet<&tast::Ty> = HashSet::new();", "s"),
+    ("let-annotated-map", "", "", "let mut s: HashMap<String, Vec<tast::Ty>> = HashMap::new();", "s"),
+    ("let-new", "", "", "let mut s = HashSet::new();", "s"),
+    ("let-turbofish-new", "", "", "let mut s = HashSet::<String>::new();", "s"),
+    ("let-with-capacity", "", "", "let mut s = HashMap::with_capacity(8);", "s"),
+    ("let-default", "", "", "let mut s = HashSet::default();", "s"),
+    ("let-from-array", "", "", "let s = HashSet::from([1, 2, 3]);", "s"),
+    ("let-annotated-collect", "", "xs: &[String]", "let s: HashSet<_> = xs.iter().cloned().collect();", "s"),
+    ("let-collect-turbofish", "", "xs: &[String]", "let s = xs.iter().cloned().collect::<HashSet<_>>();", "s"),
+    ("let-collect-turbofish-multiline", "", "xs: &[String]", "let s = xs\n        .iter()\n        .cloned()\n        .collect::<HashSet<String>>();", "s"),
+    ("let-full-path", "", "", "let mut s: std::collections::HashSet<String> = std::collections::HashSet::new();", "s"),
+    ("param-ref", "", "s: &HashSet<String>", "", "s"),
+    ("param-mut-ref", "", "s: &mut HashMap<String, u32>", "", "s"),
+    ("param-lifetime-ref", "", "s: &'a HashMap<String, u32>", "", "s"),
+    ("param-by-value", "", "s: HashSet<tast::Ty>", "", "s"),
+    ("field-of-self", "struct Holder {\n    names: HashSet<String>,\n}", "&self", "", "self.names"),
+    ("pub-field-of-other", "pub struct Env {\n    pub table: HashMap<String, u32>,\n}", "env: &Env", "", "env.table"),
+    ("field-of-field", "pub struct Env {\n    pub table: HashMap<String, u32>,\n}", "ctx: &Ctx", "", "ctx.env.table"),
+    ("fn-result", "fn names_of(x: u32) -> HashSet<String> {\n    HashSet::new()\n}", "", "let s = names_of(1);", "s"),
+    ("fn-result-direct", "fn names_of(x: u32) -> HashSet<String> {\n    HashSet::new()\n}", "", "", "names_of(1)"),
+    ("fn-result-direct-nested-arg", "fn names_of(x: u32) -> HashSet<String> {\n    HashSet::new()\n}", "", "", "names_of(id(1))"),
+    ("fn-result-in-tuple", "fn split(x: u32) -> (HashSet<String>, Vec<u32>) {\n    (HashSet::new(), vec![])\n}", "", "let (s, _rest) = split(1);", "s"),
+    ("alias-ref", "", "", "let mut s0: HashSet<String> = HashSet::new();\n    let s = &s0;", "s"),
+    ("alias-clone", "", "", "let mut s0: HashSet<String> = HashSet::new();\n    let s = s0.clone();", "s"),
+    ("alias-field-clone", "struct Holder {\n    names: HashSet<String>,\n}", "&self", "let s = self.names.clone();", "s"),
+    ("alias-mem-take", "struct Holder {\n    names: HashSet<String>,\n}", "&mut self", "let s = std::mem::take(&mut self.names);", "s"),
+    ("vec-of-maps-pop", "", "", "let mut stack: Vec<HashMap<String, u32>> = Vec::new();", "stack.pop().unwrap_or_default()"),
+    ("option-of-set", "", "o: Option<HashSet<String>>", "", "o.unwrap()"),
+    ("im-hashmap", "", "", "let mut s: ImHashMap<String, u32> = ImHashMap::new();", "s"),
+]
+SELFTEST_ITERS = [
+    ("for-by-value", "for x in {R} {\n        out.push(x);\n    }"),
+    ("for-by-ref", "for x in &{R} {\n        out.push(x);\n    }"),
+    ("for-pattern", "for (k, v) in {R} {\n        out.push((k, v));\n    }"),
+    ("for-iter", "for x in {R}.iter() {\n        out.push(x);\n    }"),
+    ("for-keys", "for x in {R}.keys() {\n        out.push(x);\n    }"),
+    ("for-values", "for x in {R}.values() {\n        out.push(x);\n    }"),
+    ("for-into-iter", "for x in {R}.into_iter() {\n        out.push(x);\n    }"),
+    ("for-drain", "for x in {R}.drain() {\n        out.push(x);\n    }"),
+    ("for-clone", "for x in {R}.clone() {\n        out.push(x);\n    }"),
+    ("iter-map-collect", "let v: Vec<_> = {R}.iter().map(|x| x.clone()).collect();\n    out.extend(v);"),
+    ("into-iter-collect", "let v: Vec<_> = {R}.into_iter().collect();\n    out.extend(v);"),
+    ("chain-multiline", "let v: Vec<_> = {R}\n        .iter()\n        .cloned()\n        .collect();\n    out.extend(v);"),
+    ("extend-by-value", "out.extend({R});"),
+    ("extend-by-ref", "out.extend(&{R});"),
+    ("extend-iter-cloned", "out.extend({R}.iter().cloned());"),
+    ("vec-from-iter", "let v = Vec::from_iter({R});\n    out.extend(v);"),
+    ("chain-adaptor", "for x in first.iter().chain(&{R}) {\n        out.push(x);\n    }"),
+    ("for-each", "{R}.iter().for_each(|x| out.push(x));"),
+    ("keys-join", "let text = {R}.keys().cloned().collect::<Vec<_>>().join(\", \");\n    out.push(text);"),
+    ("into-keys", "for x in {R}.into_keys() {\n        out.push(x);\n    }"),
+    ("difference", "for x in {R}.difference(&other) {\n        out.push(x);\n    }"),
+    ("retain-with-effect", "{R}.retain(|x| {\n        out.push(x.clone());\n        true\n    });"),
+]
+# the same statements over ordered collections: the scan must stay silent
+SELFTEST_CONTROLS = [
+    "let mut s: IndexSet<tast::Ty> = IndexSet::new();",
+    "let mut s: BTreeSet<String> = BTreeSet::new();",
+    "let mut s: Vec<String> = Vec::new();",
+    "let mut s: IndexMap<String, u32> = IndexMap::new();",
+]
+
+
+def selftest():
+    import tempfile
+    missed, false_pos, n = [], [], 0
+    with tempfile.TemporaryDirectory(prefix="hashiter-selftest-") as d:
+        def scan(src):
+            rel = "case.rs"
+            with open(os.path.join(d, rel), "w") as f:
+                f.write(src)
+            GLOBAL_FIELDS.clear()
+            GLOBAL_FIELDS.update(m.group(1) for m in re.finditer(r"\bpub\s+([a-z_][a-z0-9_]*)\s*:\s*" + HASHTY, src))
+            return scan_file(d, rel) or []
+        for il, pre, params, body, recv in SELFTEST_INTROS:
+            for tl, stmt in SELFTEST_ITERS:
+                if "{R}.drain()" in stmt and "unwrap" in recv:
+                    pass
+                src = (pre + "\n\n" if pre else "") + "fn emit(" + params + ") {\n    let mut out = Vec::new();\n" + \
+                      ("    " + body + "\n" if body else "") + "    " + stmt.replace("{R}", recv) + "\n    print(out);\n}\n"
+                n += 1
+                lo = src.index("fn emit(")
+                first_line = src[:lo].count("\n") + 1
+                if not any(s["fn"] == "emit" and s["line"] > first_line for s in scan(src)):
+                    missed.append(il + " x " + tl)
+        for body in SELFTEST_CONTROLS:
+            for tl, stmt in SELFTEST_ITERS:
+                src = "fn emit() {\n    let mut out = Vec::new();\n    " + body + "\n    " + stmt.replace("{R}", "s") + "\n    print(out);\n}\n"
+                n += 1
+                if scan(src):
+                    false_pos.append(body.split(":")[1].split("=")[0].strip() + " x " + tl)
+    GLOBAL_FIELDS.clear()
+    return {"cases": n, "introductions": len(SELFTEST_INTROS), "iterations": len(SELFTEST_ITERS), "missed": missed, "false_positives": false_pos}
+
+
 def main():
+    if len(sys.argv) > 1 and sys.argv[1] == "--selftest":
+        json.dump(selftest(), sys.stdout, indent=1)
+        return
     repo = sys.argv[1] if len(sys.argv) > 1 else os.environ.get("GV_REPO", "/repo")
     FILES[:] = all_compiler_sources(repo)
     out = {"files": [], "sites": [], "missing_files": []}
